@@ -9,6 +9,10 @@ Net == CASE Which = "p2p-client"  -> P2P("client", 3)
          [] Which = "p2p-none"    -> P2P("none", 3)
          [] Which = "bus-global"  -> Bus("global", 2)
          [] Which = "bus-client"  -> Bus("client", 2)
+         [] Which = "bus-global-1" -> Bus("global", 1)
+         [] Which = "bus-client-1" -> Bus("client", 1)
+         [] Which = "twinc-global" -> TwinC("global", 2)
+         [] Which = "twinc-client" -> TwinC("client", 2)
          [] Which = "twin-global" -> Twin("global", 2)
          [] Which = "twin-client" -> Twin("client", 2)
          [] Which = "fan-client"  -> Fan("client", 2)
